@@ -114,7 +114,10 @@ func genC12(e *emitter, tier string, seed int64) {
 		}
 	}
 	// ---- xml ----
-	docs := []string{`<a><b id="1">x</b><b id="2">y<c>z</c></b></a>`, `<a>`, ``, `plain`, `<r><v>1</v></r>`}
+	// (round 11: documents the engine accepts although they do not begin with `<`: a byte order mark, an XML
+	// declaration after a byte order mark, leading blanks and line breaks)
+	docs := []string{`<a><b id="1">x</b><b id="2">y<c>z</c></b></a>`, `<a>`, ``, `plain`, `<r><v>1</v></r>`,
+		"\ufeff<r><v>1</v></r>", "\ufeff<?xml version=\"1.0\"?><r><v>2</v></r>", " \n\t<r><v>3</v></r>", "\u00a0<r><v>4</v></r>"}
 	// (XPath functions applied to arguments of the wrong kind or number: the xpath package reports some of
 	// these only while evaluating — as a failed query, not as a crash)
 	xps := []string{`/a/b[@id='2']`, `//c`, `/a/b/@id`, `//nosuch`, `///`, `/r/v`, `count(//b)`,
